@@ -38,6 +38,10 @@ inline std::string tcfg_str(const TCfg& c) {
          " seed=" + std::to_string(c.seed) + " rf2=" + std::to_string(c.rf2) + " p2=" + str(c.p2) + " domain=" + std::to_string(c.domain) + " max_batch=" + std::to_string(c.max_batch);
 }
 
+// TT may declare `static const bool ITEM_PAYLOAD_DOUBLE = true;` (summaries are arrays of double with their own allocator)
+template<typename TT, typename = void> struct tt_payload_double { static const bool value = false; };
+template<typename TT> struct tt_payload_double<TT, std::void_t<decltype(TT::ITEM_PAYLOAD_DOUBLE)>> { static const bool value = TT::ITEM_PAYLOAD_DOUBLE; };
+
 template<typename Sk, typename TT> std::string thetalike_readout(const Sk& s) {
   std::string o = "empty=" + std::to_string(s.is_empty()) + " theta=" + std::to_string(s.get_theta64()) + " ret=" + std::to_string(s.get_num_retained()) +
     " est=" + dstr(s.get_estimate()) + " ordered=" + std::to_string(s.is_ordered()) + " seedhash=" + std::to_string(s.get_seed_hash()) + " entries=";
@@ -56,6 +60,7 @@ template<typename TT> void fill_update(typename TT::UpdateSk& u, const TCfg& c, 
 template<typename TT> struct TLUpdateFam {
   typedef typename TT::UpdateSk Obj;
   typedef TCfg Cfg;
+  static const bool ITEM_PAYLOAD_DOUBLE = tt_payload_double<TT>::value;
   static const char* name() { static const std::string n = std::string(TT::fam()) + "_update"; return n.c_str(); }
   static Cfg gen_cfg(Rng& r) { return gen_tcfg(r); }
   static std::string cfg_str(const Cfg& c) { return tcfg_str(c); }
@@ -76,6 +81,8 @@ template<typename TT> struct TLUpdateFam {
     typename TT::CompactSk c2(o, r.coin());
     (void)c1.get_estimate(); (void)c2.get_estimate();
   }
+  static const bool SINGLE_INSTANCE = true;
+  static Arena* arena_of(const Obj& o) { return o.get_allocator().arena; }
   static const bool HAS_MERGE_REF = false, HAS_MERGE_MOVE = false, HAS_RESET = true, HAS_ROUNDTRIP = false;
   static void merge_ref(Obj&, const Obj&, const Cfg&) {}
   static void merge_move(Obj&, Obj&&, const Cfg&) {}
@@ -88,6 +95,7 @@ template<typename TT> struct TLUpdateFam {
 template<typename TT> struct TLCompactFam {
   typedef typename TT::CompactSk Obj;
   typedef TCfg Cfg;
+  static const bool ITEM_PAYLOAD_DOUBLE = tt_payload_double<TT>::value;
   static const char* name() { static const std::string n = std::string(TT::fam()) + "_compact"; return n.c_str(); }
   static Cfg gen_cfg(Rng& r) { return gen_tcfg(r); }
   static std::string cfg_str(const Cfg& c) { return tcfg_str(c); }
@@ -110,6 +118,7 @@ template<typename TT> struct TLCompactFam {
   }
   static std::string readout(const Obj& o, const Cfg&) { return thetalike_readout<Obj, TT>(o) + " image=" + TT::image(o); }
   static void query(const Obj& o, const Cfg&, Rng&) { (void)o.get_lower_bound(1); (void)o.get_upper_bound(3); }
+  static Arena* arena_of(const Obj& o) { return o.get_allocator().arena; }
   static const bool HAS_MERGE_REF = false, HAS_MERGE_MOVE = false, HAS_RESET = false, HAS_ROUNDTRIP = true;
   static void merge_ref(Obj&, const Obj&, const Cfg&) {}
   static void merge_move(Obj&, Obj&&, const Cfg&) {}
@@ -157,12 +166,12 @@ template<typename TT, typename Op> void feed_setop(Op& op, const TCfg& c, Rng& r
   struct G { U& u; ~G() { u.~U(); } } g{u};
   fill_update<TT>(u, c, r);
   const uint64_t how = r.below(4);
-  if (how == 0) op.update(u);
-  else if (how == 1) { op.update(std::move(u)); xcount(std::string(fam_name) + ".merge_move"); if (r.coin()) reuse_consumed_update<TT>(u, c, r, scratch); }
+  if (how == 0) { OperandWatch w(scratch, false, "setop-update"); op.update(u); }
+  else if (how == 1) { { OperandWatch w(scratch, true, "setop-update"); op.update(std::move(u)); } xcount(std::string(fam_name) + ".merge_move"); if (r.coin()) reuse_consumed_update<TT>(u, c, r, scratch); }
   else {
     typename TT::CompactSk cs = u.compact(r.coin());
-    if (how == 2) op.update(cs);
-    else { op.update(std::move(cs)); xcount(std::string(fam_name) + ".merge_move"); if (r.coin()) reuse_consumed_compact<TT>(cs, c, r, scratch); }
+    if (how == 2) { OperandWatch w(scratch, false, "setop-update"); op.update(cs); }
+    else { { OperandWatch w(scratch, true, "setop-update"); op.update(std::move(cs)); } xcount(std::string(fam_name) + ".merge_move"); if (r.coin()) reuse_consumed_compact<TT>(cs, c, r, scratch); }
   }
   if (how == 0 || how == 2) xcount(std::string(fam_name) + ".merge_ref");
 }
@@ -170,6 +179,7 @@ template<typename TT, typename Op> void feed_setop(Op& op, const TCfg& c, Rng& r
 template<typename TT> struct TLUnionFam {
   typedef typename TT::Union Obj;
   typedef TCfg Cfg;
+  static const bool ITEM_PAYLOAD_DOUBLE = tt_payload_double<TT>::value;
   static const char* name() { static const std::string n = std::string(TT::fam()) + "_union"; return n.c_str(); }
   static Cfg gen_cfg(Rng& r) { return gen_tcfg(r); }
   static std::string cfg_str(const Cfg& c) { return tcfg_str(c); }
@@ -188,6 +198,7 @@ template<typename TT> struct TLUnionFam {
     return thetalike_readout<typename TT::CompactSk, TT>(res) + " image=" + TT::image(res);
   }
   static void query(const Obj& o, const Cfg&, Rng&) { auto res = o.get_result(false); (void)res.get_estimate(); }
+  static Arena* arena_of(const Obj& o) { return o.state_.table_.allocator_.arena; }   // private members: -fno-access-control
   static const bool HAS_MERGE_REF = false, HAS_MERGE_MOVE = false, HAS_RESET = true, HAS_ROUNDTRIP = false;
   static void merge_ref(Obj&, const Obj&, const Cfg&) {}
   static void merge_move(Obj&, Obj&&, const Cfg&) {}
@@ -199,6 +210,7 @@ template<typename TT> struct TLUnionFam {
 template<typename TT> struct TLIntersectionFam {
   typedef typename TT::Intersection Obj;
   typedef TCfg Cfg;
+  static const bool ITEM_PAYLOAD_DOUBLE = tt_payload_double<TT>::value;
   static const char* name() { static const std::string n = std::string(TT::fam()) + "_intersection"; return n.c_str(); }
   static Cfg gen_cfg(Rng& r) { TCfg c = gen_tcfg(r); c.domain = r.coin() ? 300 : 3000; return c; }   // overlapping inputs
   static std::string cfg_str(const Cfg& c) { return tcfg_str(c); }
@@ -210,6 +222,7 @@ template<typename TT> struct TLIntersectionFam {
     return thetalike_readout<typename TT::CompactSk, TT>(res) + " image=" + TT::image(res);
   }
   static void query(const Obj& o, const Cfg&, Rng&) { if (o.has_result()) { auto res = o.get_result(false); (void)res.get_estimate(); } }
+  static Arena* arena_of(const Obj& o) { return o.state_.table_.allocator_.arena; }   // private members: -fno-access-control
   static const bool HAS_MERGE_REF = false, HAS_MERGE_MOVE = false, HAS_RESET = false, HAS_ROUNDTRIP = false;
   static void merge_ref(Obj&, const Obj&, const Cfg&) {}
   static void merge_move(Obj&, Obj&&, const Cfg&) {}
@@ -227,6 +240,7 @@ template<typename TT> struct TLIntersectionFam {
 template<typename TT> struct TLANotBFam {
   typedef typename TT::ANotB Obj;
   typedef TCfg Cfg;
+  static const bool ITEM_PAYLOAD_DOUBLE = tt_payload_double<TT>::value;
   static const char* name() { static const std::string n = std::string(TT::fam()) + "_anotb"; return n.c_str(); }
   static Cfg gen_cfg(Rng& r) { TCfg c = gen_tcfg(r); c.domain = r.coin() ? 300 : 3000; return c; }
   static std::string cfg_str(const Cfg& c) { return tcfg_str(c); }
@@ -256,6 +270,7 @@ template<typename TT> struct TLANotBFam {
     return thetalike_readout<typename TT::CompactSk, TT>(res) + " image=" + TT::image(res);
   }
   static void query(const Obj&, const Cfg&, Rng&) {}
+  static Arena* arena_of(const Obj& o) { return o.state_.allocator_.arena; }   // private members: -fno-access-control
   static const bool HAS_MERGE_REF = false, HAS_MERGE_MOVE = false, HAS_RESET = false, HAS_ROUNDTRIP = false;
   static void merge_ref(Obj&, const Obj&, const Cfg&) {}
   static void merge_move(Obj&, Obj&&, const Cfg&) {}
